@@ -1561,6 +1561,24 @@ func concFrames(seed int64) [][]byte {
 			frames = append(frames, b)
 		}
 	}
+	// typical traffic: flow-mods, flow-removed and packet-ins whose matches carry the constants real networks are full of
+	// (IPv4 / ARP / IPv6 / LLDP ethertypes, TCP / UDP / ICMPv6, ports 80 / 443 / 53)
+	for _, et := range []int{0x0800, 0x0806, 0x86dd, 0x88cc, 0x8100} {
+		for _, pr := range []int{6, 17, 1, 58} {
+			tlvs := nb().hex("80000004").u32(uint32(1+pr)).hex("80000a02").u16(et).hex("80001401").u8(pr)
+			if pr == 6 {
+				tlvs.hex("80001c02").u16([]int{80, 443}[et%2])
+			} else if pr == 17 {
+				tlvs.hex("80002002").u16(53)
+			}
+			ml := 4 + len(tlvs.b)
+			match := nb().u16(1, ml).raw(tlvs.b).z((8 - ml%8) % 8).b
+			fm := nb().u32(0, 1, 0, 0).u8(0, 0).u16(0, 0, 100).u32(0xffffffff, 0xffffffff, 0xffffffff).u16(0, 0).raw(match).b
+			frames = append(frames, ofFrame(14, uint32(et*256+pr), fm))
+			fr := nb().u32(0, 7).u16(100).u8(0, 0).u32(5, 6).u16(10, 20).u32(0, 9, 0, 900).raw(match).b
+			frames = append(frames, ofFrame(11, uint32(et*256+pr+1), fr))
+		}
+	}
 	return frames
 }
 
